@@ -98,33 +98,35 @@ def prune_tree(tree, keep):
 
 
 def element_deletions(tree, class_name):
-    """Candidate trees with one instruction / case / comment of `class_name` deleted."""
+    """Candidate trees with one instruction / case / comment deleted from `class_name` or from any
+    type it (transitively) refers to; the class itself first."""
     top = class_name.split(".")[0]
-    for rel in sorted(tree):
-        root = ET.fromstring(tree[rel])
-        target = None
-        for el in root:
-            if el.tag == "struct" and el.get("name") == top:
-                target = el
-            elif el.tag == "packet":
-                suffix = "ClientPacket" if "client" in rel else "ServerPacket"
-                if el.get("family") + el.get("action") + suffix == top:
-                    target = el
-        if target is None:
-            continue
-        n = sum(1 for _ in target.iter()) - 1
-        for idx in range(n):
-            root2 = ET.fromstring(tree[rel])
-            for el in root2:
-                if (el.tag == target.tag and el.get("name") == target.get("name")
-                        and el.get("family") == target.get("family") and el.get("action") == target.get("action")):
-                    parents = {c: p for p in el.iter() for c in p}
-                    victim = list(el.iter())[1:][idx]
-                    parents[victim].remove(victim)
-                    break
-            cand = dict(tree)
-            cand[rel] = '<?xml version="1.0" encoding="UTF-8"?>\n' + ET.tostring(root2, encoding="unicode") + "\n"
-            yield cand
+    names = [top] + sorted(closure(tree, [top]) - {top})
+
+    def matches(el, rel, name):
+        if el.tag in ("struct", "enum"):
+            return el.get("name") == name
+        if el.tag == "packet":
+            suffix = "ClientPacket" if "client" in rel else "ServerPacket"
+            return el.get("family") + el.get("action") + suffix == name
+        return False
+
+    for name in names:
+        for rel in sorted(tree):
+            root = ET.fromstring(tree[rel])
+            target = next((el for el in root if matches(el, rel, name)), None)
+            if target is None:
+                continue
+            n = sum(1 for _ in target.iter()) - 1
+            for idx in range(n):
+                root2 = ET.fromstring(tree[rel])
+                el = next(e for e in root2 if matches(e, rel, name))
+                parents = {c: p for p in el.iter() for c in p}
+                victim = list(el.iter())[1:][idx]
+                parents[victim].remove(victim)
+                cand = dict(tree)
+                cand[rel] = '<?xml version="1.0" encoding="UTF-8"?>\n' + ET.tostring(root2, encoding="unicode") + "\n"
+                yield cand
 
 
 def shape_features(spec):
